@@ -372,10 +372,12 @@ func runC10(c *an.Ctx) {
 						for i, e := range ph.Edges {
 							fs := hf.EdgeFacts(ph.Block().Preds[i], ph.Block())
 							codeT := ht.Of(codeVal)
+							// the selection may be written on the status code or directly on the error
+							// (code == OK ⇔ err == nil is C10.d code-OK / code-NOT_FOUND)
 							if hasPhiOfResults(e) {
-								okSrc = okSrc && fs.Has(an.EQ(codeT, codeOK))
+								okSrc = okSrc && (fs.Has(an.EQ(codeT, codeOK)) || fs.Has(an.EQ(errT, "nil")))
 							} else if _, isSl := e.(*ssa.Slice); isSl {
-								okSrc = okSrc && fs.Has(an.NE(codeT, codeOK))
+								okSrc = okSrc && (fs.Has(an.NE(codeT, codeOK)) || fs.Has(an.NE(errT, "nil")))
 							} else {
 								okSrc = false
 							}
